@@ -199,6 +199,34 @@ func emitProbe(cw *caseWriter, what string, f func() string) {
 	cw.emit("probe "+what, true, "probe", "C17", what, impl)
 }
 
+// emitGetter: one typed getter on a row, compared with the model (value or zero value of the getter's type).
+//
+//	getter \t C17 \t <row Val> \t <getter> \t K:<hex key> \t <ext> \t <impl Dyn | panic …>
+func emitGetter(cw *caseWriter, row jsonline.Row, getter, key string, call func(jsonline.Row) interface{}) {
+	ext := map[string]string{}
+	extForValue(row, ext)
+	if raw, ok := row.Get(key); ok {
+		if sv, isStr := raw.(string); isStr {
+			extForText(sv, ext)
+		}
+		if nv, isNum := raw.(json.Number); isNum {
+			extForText(string(nv), ext)
+		}
+	}
+	before := valStr(row)
+	var res interface{}
+	pan := guard(func() { res = call(row) })
+	impl := ""
+	if pan != "" {
+		impl = "panic " + strings.ReplaceAll(strings.ReplaceAll(pan, "\t", " "), "\n", " ")
+	} else {
+		extForValue(res, ext)
+		impl = dynStr(res)
+	}
+	cw.count("getter:" + getter)
+	cw.emit("getter "+getter+" "+key+" "+before, true, "getter", "C17", before, getter, "K:"+hx([]byte(key)), extStr(ext), impl)
+}
+
 func genC17(cw *caseWriter, seed uint64, tier string) {
 	r := newRng(seed)
 	mkRows := map[string]func() jsonline.Row{
@@ -237,7 +265,7 @@ func genC17(cw *caseWriter, seed uint64, tier string) {
 		"GetUint32": func(r jsonline.Row, k string) interface{} { return r.GetUint32(k) }, "GetUint16": func(r jsonline.Row, k string) interface{} { return r.GetUint16(k) },
 		"GetUint8": func(r jsonline.Row, k string) interface{} { return r.GetUint8(k) }, "GetFloat64": func(r jsonline.Row, k string) interface{} { return r.GetFloat64(k) },
 		"GetFloat32": func(r jsonline.Row, k string) interface{} { return r.GetFloat32(k) }, "GetBool": func(r jsonline.Row, k string) interface{} { return r.GetBool(k) },
-		"GetBytes": func(r jsonline.Row, k string) interface{} { return r.GetBytes(k) }, "GetTime": func(r jsonline.Row, k string) interface{} { return r.GetTime(k).Unix() },
+		"GetBytes": func(r jsonline.Row, k string) interface{} { return r.GetBytes(k) }, "GetTime": func(r jsonline.Row, k string) interface{} { return r.GetTime(k) },
 	}
 	gnames := []string{"GetString", "GetInt", "GetInt64", "GetInt32", "GetInt16", "GetInt8", "GetUint", "GetUint64", "GetUint32", "GetUint16", "GetUint8", "GetFloat64", "GetFloat32", "GetBool", "GetBytes", "GetTime"}
 	for _, rn := range []string{"empty", "parsed", "built"} {
@@ -246,6 +274,7 @@ func genC17(cw *caseWriter, seed uint64, tier string) {
 			for _, k := range keys {
 				gg, kk := getters[g], k
 				emitProbe(cw, fmt.Sprintf("%s.%s(%q)", rn, g, k), func() string { return fmt.Sprintf("%v", gg(mk(), kk)) })
+				emitGetter(cw, mk(), g, k, func(r jsonline.Row) interface{} { return gg(r, kk) })
 			}
 		}
 		for _, i := range []int{-1, 0, 1, 5, 100, math.MinInt64, math.MaxInt64} {
